@@ -269,6 +269,21 @@ func constArrayTerm(content string) string {
 	return b.String()
 }
 
+// constArrayDef: short constants are store chains; long ones (lookup tables) are an uninterpreted array with
+// one equation per element, which keeps the array solver from case-splitting over the whole table on every
+// symbolic index (indices outside the table are unconstrained: weaker, still sound).
+func constArrayDef(name, content string) string {
+	if len(content) <= 32 {
+		return fmt.Sprintf("(define-fun %s () (Array Int Int) %s)", name, constArrayTerm(content))
+	}
+	var b strings.Builder
+	fmt.Fprintf(&b, "(declare-fun %s () (Array Int Int))", name)
+	for i := 0; i < len(content); i++ {
+		fmt.Fprintf(&b, "\n(assert (= (select %s %d) %d))", name, i, content[i])
+	}
+	return b.String()
+}
+
 // constDefs: definitions of the constant arrays (this function's and those used by spec functions).
 func (e *Enc) constDefs() []string {
 	var out []string
@@ -276,12 +291,12 @@ func (e *Enc) constDefs() []string {
 	for _, s := range e.strList {
 		r := e.strConst[s]
 		seen[r] = true
-		out = append(out, fmt.Sprintf("(define-fun %s () (Array Int Int) %s)", sym("CS!"+r), constArrayTerm(s)))
+		out = append(out, constArrayDef(sym("CS!"+r), s))
 	}
 	for _, s := range e.W.specConstList {
 		r := e.W.specConsts[s]
 		if !seen[r] {
-			out = append(out, fmt.Sprintf("(define-fun %s () (Array Int Int) %s)", sym("CS!"+r), constArrayTerm(s)))
+			out = append(out, constArrayDef(sym("CS!"+r), s))
 		}
 	}
 	return out
